@@ -11,6 +11,11 @@ E1 explicit-state search.  state = attached databases / schemas / tables with ro
                              about earlier connects meets a catalog that has changed since. The statement itself is not
                              judged (C03/C07); the model adopts the catalog found after it, and the option table is
                              applied to the connect that follows with that catalog as prior state.
+                           + names that are active in a pattern language (FAMILIES: _ and $ are legal in an unquoted
+                             identifier and mean something in LIKE / regex / glob) next to look-alike objects (a database /
+                             schema whose name differs from the requested one only at that character, created by the
+                             fixture or by an earlier connect): flags x storage x DECOY_LEVELS x (name | look-alike) for
+                             both arguments; "exists" means an object of exactly that name, the look-alike is a bystander
 Every history is executed on a fresh real instance (fresh directory for db_path); the reference model (the option
 table OPTION_TABLE_DOC / Model.connect below, written from the property statement, not from conn.py) is stepped in
 lock-step and compared after the last connect through two windows: reported (connect outcome, conn.database,
@@ -108,6 +113,47 @@ PLAN = {
     ),
 }
 
+# ---- names that are "active" in a pattern language, next to look-alike objects ----------------------------------------------
+# A requested name may contain characters that are legal in an unquoted Snowflake identifier (letters, digits, _ and $)
+# and at the same time mean something in LIKE / regex / glob patterns. "Exists" in the option table means "an object of
+# exactly that name (upper-cased) exists": an object whose name differs from the requested one only at the position of
+# such a character (the DECOY) is a different object. family -> (database, decoy database, schema, decoy schema);
+# the decoy names are requested too (then the object with the active character is the look-alike).
+FAMILIES = {
+    "underscore": ("d_1", "dx1", "s_1", "sx1"),
+    "dollar": ("d$1", "dx1", "s$1", "sx1"),
+}
+ACTIVE_CHARS = "_$"
+# what exists before the first connect under test (memory / fresh: in the instance; previous: as files of a previous instance)
+#   decoy_database        : <decoy db> holding a schema named exactly like the requested schema, and the decoy schema + table
+#   database+decoy_schema : <db> holding only the decoy schema (+ table); the requested schema is missing
+DECOY_LEVELS = ("nothing", "decoy_database", "database+decoy_schema", "decoy_database+database+decoy_schema")
+DECOY_PRIORS = tuple(f"{fam}:{lvl}" for fam in FAMILIES for lvl in DECOY_LEVELS)
+DECOY_CONFIGS = tuple((cd, cs, st, pr) for cd, cs in FLAGS for st in STORAGES for pr in DECOY_PRIORS)  # 96
+
+
+def family_args(prior):
+    """Connect alphabet of a decoy configuration: database in (requested, decoy) x schema in (None, requested, decoy)."""
+    d, dd, sc, sd = FAMILIES[prior.split(":")[0]]
+    return tuple((a, b) for a in (d, dd) for b in (None, sc, sd))
+
+
+
+
+def decoy_successors(tier, cfg, hist):
+    """Transitions of a decoy configuration. Step 1: the complete family alphabet in every configuration. Step 2 (the
+    look-alike was created by the connect before, not by the fixture - connection order): thorough = the complete
+    family alphabet again from every state; quick = from the states without fixture objects only, both arguments given."""
+    args = family_args(cfg[3])
+    if len(hist) == 0:
+        return args
+    if len(hist) == 1:
+        if tier == "thorough":
+            return args
+        if cfg[3].endswith(":nothing"):
+            return tuple(a for a in args if a[1] is not None)
+    return ()
+
 INFO = "INFORMATION_SCHEMA"  # exists in every database (Snowflake: every database has INFORMATION_SCHEMA)
 
 # fixture SQL (fully qualified; the first session s0 is fs.connect() without arguments, which may create nothing)
@@ -136,6 +182,50 @@ OLD_SQL = ("create database old", "create schema old.os", "create table old.os.o
 def prior_content(prior):
     """What PRIOR_SQL leaves in DB1 (None: no DB1), written by hand."""
     return {"nothing": None, "database": {"SX": {"KX": ["(5, 'five')"]}}, "database+schema": {"S1": {"T0": ["(7, 'seven')"]}}}[prior]
+
+
+def prior_sql(prior):
+    if prior in PRIOR_SQL:
+        return PRIOR_SQL[prior]
+    fam, level = prior.split(":")
+    d, dd, sc, sd = FAMILIES[fam]
+    out = ()
+    if level in ("decoy_database", "decoy_database+database+decoy_schema"):
+        out += (
+            f"create database {dd}",
+            f"create schema {dd}.{sc}",
+            f"create schema {dd}.{sd}",
+            f"create table {dd}.{sd}.kd (x int, v varchar(12)) comment = 'table in the look-alike database'",
+            f"insert into {dd}.{sd}.kd values (8, 'eight')",
+        )
+    if level in ("database+decoy_schema", "decoy_database+database+decoy_schema"):
+        out += (
+            f"create database {d}",
+            f"create schema {d}.{sd}",
+            f"create table {d}.{sd}.ks (x int, v varchar(14)) comment = 'table in the look-alike schema'",
+            f"insert into {d}.{sd}.ks values (9, 'nine')",
+        )
+    return out
+
+
+def prior_databases(prior):
+    """{DB: {SCHEMA: {TABLE: rows}}} that the prior fixture leaves, written by hand (not derived from prior_sql)."""
+    if prior in PRIORS:
+        c = prior_content(prior)
+        return {} if c is None else {"DB1": c}
+    fam, level = prior.split(":")
+    d, dd, sc, sd = (x.upper() for x in FAMILIES[fam])
+    return {
+        "nothing": {},
+        "decoy_database": {dd: {sc: {}, sd: {"KD": ["(8, 'eight')"]}}},
+        "database+decoy_schema": {d: {sd: {"KS": ["(9, 'nine')"]}}},
+        "decoy_database+database+decoy_schema": {dd: {sc: {}, sd: {"KD": ["(8, 'eight')"]}}, d: {sd: {"KS": ["(9, 'nine')"]}}},
+    }[level]
+
+
+def look_alike(a, b):
+    """a != b, same length, and they differ only where one of them has a character that is active in a pattern."""
+    return a != b and len(a) == len(b) and all(x == y or x in ACTIVE_CHARS or y in ACTIVE_CHARS for x, y in zip(a, b))
 
 
 # what Snowflake reports about DB1.S1.T0 as created by PRIOR_SQL (hand-written from the documentation: COMMENT column of
@@ -179,16 +269,17 @@ class Model:
         # fixture, mirrored by hand
         if self.storage == "previous":
             self.disk["OLD"] = {"OS": {"OT": ["(3, 'abc')"]}}
-            if prior_content(self.prior) is not None:
-                self.disk["DB1"] = copy.deepcopy(prior_content(self.prior))
+            for db, content in prior_databases(self.prior).items():
+                self.disk[db] = copy.deepcopy(content)
         self.sessions.append({"database": None, "schema": None, "has_db": False, "has_schema": False, "alive": True})
         self._attach("OTHER")
         self.cat["OTHER"]["SO"] = {"KEEP": ["(1, 'one')"]}
         self.cat["OTHER"]["S1"] = {}
         self.sessions[0].update(database="OTHER", schema="SO", has_db=True, has_schema=True)
-        if self.storage != "previous" and prior_content(self.prior) is not None:
-            self._attach("DB1")
-            self.cat["DB1"].update(copy.deepcopy(prior_content(self.prior)))
+        if self.storage != "previous":
+            for db, content in prior_databases(self.prior).items():
+                self._attach(db)
+                self.cat[db].update(copy.deepcopy(content))
 
     def _attach(self, d):
         if self.disk is None:
@@ -297,7 +388,16 @@ def shape(m: Model, database, schema):
         sk = "builtin"
     else:
         sk = "exists" if s in m.cat[d] else "missing"
-    return f"cd={'T' if m.cd else 'F'},cs={'T' if m.cs else 'F'},db={dbk},schema={sk}"
+    # look-alike objects present (attached or as a file): a database that differs from D only at an active character;
+    # a schema that differs from S only there, in D or in a look-alike of D - or S itself in a look-alike of D
+    known = set(m.cat) | set(m.disk or {})
+    alike_dbs = sorted(x for x in known if d and look_alike(x, d))
+    dk = ",decoy_db" if alike_dbs else ""
+    if s:
+        schemas_of = lambda x: set(m.cat.get(x, {})) | set((m.disk or {}).get(x, {}))  # noqa: E731
+        if (d in known and any(look_alike(x, s) for x in schemas_of(d))) or any(x == s or look_alike(x, s) for a in alike_dbs for x in schemas_of(a)):
+            dk += ",decoy_schema"
+    return f"cd={'T' if m.cd else 'F'},cs={'T' if m.cs else 'F'},db={dbk},schema={sk}{dk}"
 
 
 # known deviation shapes (quirk branches): connect raises, nothing changes, exploration continues without that session
@@ -433,7 +533,7 @@ class Live:
         if storage == "previous":
             prev = inst.FakeSnow(db_path=self.dir)
             p0 = prev.connect()
-            run_sql(p0, OLD_SQL + PRIOR_SQL[prior], "previous instance")
+            run_sql(p0, OLD_SQL + prior_sql(prior), "previous instance")
             self.prev_side = real_state(prev)[1]  # what the previous instance stored, read before it is closed
             p0.close()
             prev.duck_conn.close()
@@ -441,7 +541,7 @@ class Live:
         self.fs = inst.FakeSnow(create_database_on_connect=cd, create_schema_on_connect=cs, db_path=self.dir)
         s0 = self.fs.connect()
         self.sessions.append(s0)
-        run_sql(s0, BYSTANDER_SQL + (PRIOR_SQL[prior] if storage != "previous" else ()), "first session")
+        run_sql(s0, BYSTANDER_SQL + (prior_sql(prior) if storage != "previous" else ()), "first session")
 
     def close(self):
         for s in self.sessions:
@@ -785,8 +885,10 @@ def explore(item, acc: core.Acc, tier):
     return {"key": r["key"], "obs": r["obs"], "stmts": info["enabled_statements"]}
 
 
-def successors(plan_step, hist, enabled):
+def successors(plan_step, hist, enabled, cfg=None, tier="quick"):
     """The transitions explored from a state at one step of the plan."""
+    if cfg is not None and ":" in cfg[3]:
+        return decoy_successors(tier, cfg, hist)
     if hist and hist[-1][0] == "$":
         return tuple(plan_step.get("after_stmt", plan_step.get("connect", ())))
     if "connect" not in plan_step and "stmt" not in plan_step:
@@ -809,7 +911,11 @@ def run(ctx: core.Ctx):
         "deduplicated on the state reached (model catalog + disk + session contexts, DuckDB-level session context, "
         "outcomes of the sessions' first unqualified statements); every history runs on a fresh real instance; a history "
         "ending in a connect is judged after that connect with the option table applied to the catalog as it is then "
-        "(after a statement: taken from ground truth); non-trivial = the option table creates something, or leaves the "
+        "(after a statement: taken from ground truth); in addition, per family of names with a character that is active "
+        "in LIKE/regex/glob patterns (_ and $), flags(2x2) x storage(3) x prior(nothing, look-alike database, database "
+        "with look-alike schema, both) = 48 configurations each, transitions = connect with database in (name, look-alike) "
+        "x schema in (absent, name, look-alike), 1 step everywhere + a second step (thorough: everywhere; quick: from "
+        "the configurations without fixture objects, both arguments given); non-trivial = the option table creates something, or leaves the "
         "session without current database/schema, or connect raised"
     )
     ctx.assumptions = [
@@ -825,12 +931,15 @@ def run(ctx: core.Ctx):
         "plan": [{k: len(v) for k, v in st.items()} for st in plan],
         "database": list(DATABASE_ARGS),
         "schema": list(SCHEMA_ARGS),
+        "pattern_active_name_families": {k: list(v) for k, v in FAMILIES.items()},
+        "decoy_priors": list(DECOY_LEVELS),
+        "decoy_connect_alphabet": {k: [list(a) for a in family_args(k + ":nothing")] for k in FAMILIES},
         "flags": [list(f) for f in FLAGS],
         "storage": list(STORAGES),
         "prior": list(PRIORS),
     }
     # depth 0: fixture only (records how the first session's unqualified statements behave)
-    res = ctx.pmap(explore, [(cfg, (), None) for cfg in CONFIGS], recheck=False)
+    res = ctx.pmap(explore, [(cfg, (), None) for cfg in CONFIGS + DECOY_CONFIGS], recheck=False)
     frontier = []
     seen = set()
     for (cfg, hist, _p), out in sorted(res, key=lambda x: repr(x[0])):
@@ -839,7 +948,7 @@ def run(ctx: core.Ctx):
     complete = True
     first_connects = 0
     for d in range(1, depth + 1):
-        items = [(cfg, tuple(hist) + (a,), obs) for cfg, hist, obs, stmts in frontier for a in successors(plan[d - 1], hist, stmts)]
+        items = [(cfg, tuple(hist) + (a,), obs) for cfg, hist, obs, stmts in frontier for a in successors(plan[d - 1], hist, stmts, cfg, ctx.tier)]
         if d == 1:
             first_connects = len(items)
         res = ctx.pmap(explore, items, recheck=(d == 1))
@@ -859,7 +968,7 @@ def run(ctx: core.Ctx):
     for s in sorted(map(repr, seen)):
         ctx.acc.add("states", s)
     ctx.extra["first_connects_complete_product"] = first_connects
-    ctx.extra["bound"] = f"histories of up to {depth} steps from each of {len(CONFIGS)} configurations; {sizes}"
+    ctx.extra["bound"] = f"histories of up to {depth} steps from each of {len(CONFIGS)} configurations; {sizes}; histories of up to 2 connects from each of {len(DECOY_CONFIGS)} look-alike-name configurations"
     ctx.extra["frontier_left_unexpanded"] = len(frontier)
     ctx.exhaustive = bool(complete)
 
